@@ -53,6 +53,7 @@ func verifyFunction(P *Program, fn *ssa.Function, con *Contract, safe bool, prop
 		v := e.freshVal(st, "fv."+fv.Name(), fv.Type())
 		fr.env = append(fr.env, v)
 	}
+	e.assumeDisjointParams(st)
 	e.entry = st // requires are evaluated with old == current
 	if con != nil {
 		env := e.rootEnv(st, nil)
@@ -115,4 +116,67 @@ func (e *Engine) addParamModelTerms(st *State) {
 			}
 		}
 	}
+}
+
+
+// assumeDisjointParams: distinct objects do not overlap. For every pair of pointer / interface
+// parameters: equal, or their extents are disjoint -- unless one pointee type can contain the
+// other by value (then one may point into the other).
+func (e *Engine) assumeDisjointParams(st *State) {
+	type obj struct {
+		addr string
+		size int64
+		ty   types.Type
+	}
+	var objs []obj
+	for _, p := range e.fn.Params {
+		v := e.paramVals[p.Name()]
+		switch v.K {
+		case KPtr:
+			if pt := e.pointee(v.Ty); pt != nil {
+				if _, ok := isStruct(pt); ok {
+					objs = append(objs, obj{v.T, sizeOf(pt), pt})
+				}
+			}
+		case KIface:
+			var mx int64 = 1
+			for _, t := range e.P.implementers(v.Ty) {
+				if pt := e.pointee(t); pt != nil {
+					if s := sizeOf(pt); s > mx {
+						mx = s
+					}
+				}
+			}
+			if e.P.closedWorld(v.Ty) {
+				objs = append(objs, obj{v.T, mx, nil})
+			}
+		}
+	}
+	for i := 0; i < len(objs); i++ {
+		for j := i + 1; j < len(objs); j++ {
+			a, b := objs[i], objs[j]
+			if a.ty != nil && b.ty != nil && (containsByValue(a.ty, b.ty) || containsByValue(b.ty, a.ty)) && !types.Identical(a.ty, b.ty) {
+				continue
+			}
+			st.assume(or(eq(a.addr, b.addr), eq(a.addr, "0"), eq(b.addr, "0"),
+				"(<= "+addInt(a.addr, a.size)+" "+b.addr+")", "(<= "+addInt(b.addr, b.size)+" "+a.addr+")"))
+		}
+	}
+}
+
+func containsByValue(outer, inner types.Type) bool {
+	s, ok := isStruct(outer)
+	if !ok {
+		return false
+	}
+	for i := 0; i < s.NumFields(); i++ {
+		ft := s.Field(i).Type()
+		if types.Identical(ft, inner) {
+			return true
+		}
+		if _, ok := isStruct(ft); ok && containsByValue(ft, inner) {
+			return true
+		}
+	}
+	return false
 }
